@@ -140,7 +140,9 @@ def emission_stage(rep, exe, rng, n):
     user's bound with exactly the bindings removed — also for the second and later members of a family, whose bounds went
     through reverse substitution (Path::substitute) before they became the family's keys"""
     traits = ["::core::ops::Deref", "core::ops::Deref", "::core::iter::IntoIterator", "m::D0", "D0", "self::D0", "crate::m::D0", "::dep::sub::Tr",
-              "::core::ops::Add<u8>", "m::D2<'static, i32>", "::dep::Tr<u8, 2>"]
+              "::core::ops::Add<u8>", "m::D2<'static, i32>", "::dep::Tr<u8, 2>",
+              # raw identifiers are part of the user's spelling (`r#gen` is a keyword of edition 2024 without the prefix; seeded change C12i)
+              "r#gen::D0", "m::r#type::D2<'static, i32>", "r#D0"]
     assocs = {"Deref": "Target", "IntoIterator": "Item", "Add<u8>": "Output"}
     invs = []
     for _ in range(n):
